@@ -193,8 +193,7 @@ theorem parseSchemaChange_ok (v : Nat) (sc : SchemaChange) (r : FrameRead.Bytes)
 /-! ## RESULT -/
 
 theorem parseResultFrame_ok (v : Nat) (res : Result) (r : FrameRead.Bytes) (hv : 1 ≤ v)
-    (hw : wfResult v res = true)
-    (hc : noCollClassBody (.result res) = true) :
+    (hw : wfResult v res = true) :
     parseResultFrame v (eResult v res ++ r)
       = .ok (viewBody v (.result res), restOfBody (.result res) ++ r) := by
   unfold parseResultFrame
@@ -205,13 +204,12 @@ theorem parseResultFrame_ok (v : Nat) (res : Result) (r : FrameRead.Bytes) (hv :
     simp [pure_apply, viewBody, restOfBody]
   | rows m rs =>
     have h : wfMeta m = true ∧ rs.length < 2147483648 := by simpa [wfResult] using hw
-    have hc' : noCollClassMeta m = true := by simpa [noCollClassBody] using hc
     simp only [eResult, List.append_assoc]
     rw [bind_ok (readInt_eInt 2 _ (by decide))]
     have : parseResultRows (eMeta m ++ (eInt rs.length ++ (eRows rs ++ r))) =
         .ok (.resultRows (viewMeta m) rs.length, eRows rs ++ r) := by
       unfold parseResultRows
-      rw [bind_ok (parseResultMetadata_ok m _ h.1 hc'), bind_ok (readInt_eInt_nat _ _ h.2)]
+      rw [bind_ok (parseResultMetadata_ok m _ h.1), bind_ok (readInt_eInt_nat _ _ h.2)]
       have : ¬ ((rs.length : Int) < 0) := by omega
       simp [this, pure_apply]
     simp [this, viewBody, restOfBody]
@@ -225,14 +223,13 @@ theorem parseResultFrame_ok (v : Nat) (res : Result) (r : FrameRead.Bytes) (hv :
     | none =>
       have h : (((fitsShort id = true ∧ wfMeta req = true) ∧ pk.length < 2147483648) ∧ pk.all isShort = true) ∧ v < 2 := by
         simpa [wfResult] using hw
-      have hc' : noCollClassMeta req = true := by simpa [noCollClassBody] using hc
       simp only [eResult, List.append_assoc]
       rw [bind_ok (readInt_eInt 4 _ (by decide))]
       have : parseResultPrepared v (eString id ++ (ePreparedMeta v pk req ++ ([] ++ r))) =
           .ok (viewBody v (.result (.prepared id pk req none)), r) := by
         unfold parseResultPrepared
         rw [List.nil_append, bind_ok (readShortBytes_eString id _ h.1.1.1.1),
-          bind_ok (parsePreparedMetadata_ok v pk req _ h.1.1.1.2 hc' h.1.1.2 h.1.2)]
+          bind_ok (parsePreparedMetadata_ok v pk req _ h.1.1.1.2 h.1.1.2 h.1.2)]
         simp [h.2, pure_apply, viewBody]
       rw [List.nil_append] at this
       simp [this, restOfBody]
@@ -240,17 +237,16 @@ theorem parseResultFrame_ok (v : Nat) (res : Result) (r : FrameRead.Bytes) (hv :
       have h : (((fitsShort id = true ∧ wfMeta req = true) ∧ pk.length < 2147483648) ∧ pk.all isShort = true) ∧
           (v ≥ 2 ∧ wfMeta m = true) := by
         simpa [wfResult] using hw
-      have hc' : noCollClassMeta req = true ∧ noCollClassMeta m = true := by simpa [noCollClassBody] using hc
       simp only [eResult, List.append_assoc]
       rw [bind_ok (readInt_eInt 4 _ (by decide))]
       have : parseResultPrepared v (eString id ++ (ePreparedMeta v pk req ++ (eMeta m ++ r))) =
           .ok (viewBody v (.result (.prepared id pk req (some m))), r) := by
         unfold parseResultPrepared
         rw [bind_ok (readShortBytes_eString id _ h.1.1.1.1),
-          bind_ok (parsePreparedMetadata_ok v pk req _ h.1.1.1.2 hc'.1 h.1.1.2 h.1.2)]
+          bind_ok (parsePreparedMetadata_ok v pk req _ h.1.1.1.2 h.1.1.2 h.1.2)]
         have hv1 : ¬ v < 2 := by omega
         simp only [hv1, if_false]
-        rw [bind_ok (parseResultMetadata_ok m r h.2.2 hc'.2)]
+        rw [bind_ok (parseResultMetadata_ok m r h.2.2)]
         simp [pure_apply, viewBody]
       simp [this, restOfBody]
   | schemaChange sc =>
